@@ -479,7 +479,7 @@ theorem loc_pos_stable {R : Ring} {x : Th} {s p : Nat} {d : List Nat} (hq : Loc 
     simp only [Loc, reg] at hq ⊢
     obtain ⟨a, b, c, d1, e⟩ := hq
     exact ⟨a, claimfix h' b c, c, d1, e⟩
-  case is1 p' | r1 p' sg | r2 p' sg | r3 p' sg | r3b p' sg =>
+  case r1 p' sg | r2 p' sg | r3 p' sg | r3b p' sg =>
     simp only [Loc, Th.singleRecv] at hq hsr ⊢
     intro hs; rw [upd_ne _ _ _ _ (hsr hs)]; exact hq hs
   case r4 p' | r5 p' sg | r6 p' | rd p' sg =>
@@ -747,7 +747,7 @@ theorem loc_add_stable {R : Ring} {x : Th} {ng ns raw s : Nat} (g : Glob R) (hq 
     simp only [Loc] at hq ⊢
     obtain ⟨a, b, c, d, e⟩ := hq
     exact ⟨a, le_all h b, c, d, e⟩
-  case is1 p | r1 p sg | r2 p sg | r3 p sg | r3b p sg =>
+  case r1 p sg | r2 p sg | r3 p sg | r3b p sg =>
     simp only [Loc, PC.recvActive] at hq hxs ⊢
     rw [posfix sx (hxs trivial)]; exact hq
   case r4 p | r5 p sg | r6 p | rd p sg =>
